@@ -23,10 +23,10 @@ for pid in sorted(PROPS):
 out.append("\nNot applicable: none — every property has a logic core that M expresses; where part of the truth lives in the\n"
            "runtime (native stack bytes, process I/O, wasm, JSON-RPC) the MANIFEST `level_note` names the part that is only exercised.\n")
 out.append("\n---------------------------------------------------------------------------\n\n## 6. Seeded changes: which check catches which\n\n"
-           "One hundred and twenty changes (six per property, in three rounds of two) were written by fresh sub-agents that saw only the property text and a\n"
+           "One hundred and forty-four changes (six per property in three rounds of two, and a fourth round of two for the twelve core-interpreter properties) were written by fresh sub-agents that saw only the property text and a\n"
            "scratch worktree (the second round was also told what the first had tried, so as not to repeat it); each compiles,\n"
            "passes the 153 existing tests, and comes with a demonstration that fails with the change and passes without it\n"
-           "(confirmed here with `tools/confirm_seed.sh`).  They are kept under `seeded/<id>-<a..f>/` (`patch.diff`, demo,\n"
+           "(confirmed here with `tools/confirm_seed.sh`).  They are kept under `seeded/<id>-<a..h>/` (`patch.diff`, demo,\n"
            "`meta.json`) and were run with `tools/try_seed.sh` (apply to /repo, `./check`, undo).\n\n"
            "Round 2 (`-c`, `-d`) was run against the checks as they stood after round 1: 22 of 40 were reported at once, 18 were\n"
            "MISSED by the quick tier (C01-c, C02-c, C03-c, C03-d, C04-d, C05-d, C06-c, C08-d, C10-c, C10-d, C11-c, C11-d, C12-c,\n"
@@ -60,7 +60,26 @@ out.append("\n------------------------------------------------------------------
            "hand transliteration): the check now ALSO runs the page script - `class Interpreter` and the submit handler,\n"
            "type-stripped, under node - against the real adapter and demands agreement with the transliteration and the model\n"
            "on every event (`harness/page/page_driver.js`, `harness/src/realpage.rs`, oracle `page-script-same`).\n"
-           "The lesson kept from three rounds: misses were always generator reach, so every miss was answered with a\n"
+           "Round 4 (`-g`, `-h`; the twelve properties decided over the core interpreter: C01-C04, C07-C11, C14, C16, C17) was a\n"
+           "blind test of the general `walk` slice (section 4), which had been written after round 3 - the earlier figure\n"
+           "that `walk` alone reported 28 of the 59 older core seeds was not blind, those seeds having shaped it.  15 of 24\n"
+           "were reported at once (seven of them by `walk` alone: C04-g, C07-g, C07-h, C10-g, C10-h, C11-g, C11-h), 9 were\n"
+           "MISSED (C02-g, C02-h, C03-g, C03-h, C14-g, C14-h, C16-g, C16-h, C17-g).  Added: NaN / infinite operands of every\n"
+           "operator and sessions that define functions under built-in names before calling them (C02); errors raised two or\n"
+           "three user-function calls deep, fractional and negative-fractional subscripts (C03); line numbers 0 and\n"
+           "18446744073709551615 and programs edited after a run - lines, DATA lines among them, overwritten or deleted before\n"
+           "LIST / reload (C14); FOR loops typed at the prompt when stopped at the cap (C16); shaped programs whose warnings\n"
+           "come from reads of an outer call's argument (C17).  All 24 are now reported by the quick tier.\n\n"
+           "Mechanical mutants (`tools/mutants.py`): 239 one-token mutants of the Rust sources (comparison flips, deleted\n"
+           "statements, off-by-one constants) were each run through the existing tests and then through the quick tier in a\n"
+           "scratch copy.  Survivors were triaged by hand (`python3 tools/mutants.py report` prints them): all but one are equivalent mutants (for\n"
+           "instance `trim()` vs `trim_start()` before `is_empty()`, `is_ascii_hexdigit` where a later `parse::<u64>` rejects\n"
+           "the same strings, iteration order over a loop stack that holds one entry per variable - an invariant proved in\n"
+           "`C16.store_ok_reachable`) or lie outside the twenty properties (terminal detection, the static-warning line number\n"
+           "the CLI prints, LSP capability flags).  The one real miss was `step_value >= 0.0` -> `> 0.0` in NEXT: no generator\n"
+           "produced STEP 0; a zero-step family (`STEP 0`, `STEP -0`, `STEP 0 * Z`) was added to the reference-interpreter\n"
+           "generator and C03 now reports it with a concrete program.\n\n"
+           "The lesson kept from four rounds: misses were always generator reach, so every miss was answered with a\n"
            "*family* of inputs (a dimension of the input space), and the evidence file prints the distribution of families.\n\n"
            "| seed | needs, in order to manifest | result |\n|---|---|---|\n")
 for d in sorted(glob.glob(os.path.join(V, "seeded", "*"))):
